@@ -305,6 +305,206 @@ theorem divergence_nonpositive_errors (t : Topo) (d : Int) (hd : d ≤ 0) : dive
   unfold divergence
   rw [if_neg (by omega), if_neg (by omega)]
 
+/-! ### divergence applied to a flux vector -/
+
+/-- Matrix-vector form of `vector_div_is_kron`: the vector divergence acts component by component,
+    `(div_d u)[c·d + k] = (div_1 u_k)[c]` with `u_k[f] = u[f·d + k]`, for every topology, every
+    d ≥ 1, every flux vector `u` and every component k < d. -/
+theorem vector_div_acts_componentwise (t : Topo) (d : Nat) (hd : 1 ≤ d) (u : Nat → Rat)
+    (c k : Nat) (hk : k < d) :
+    ∃ tv ts, divergence t (d : Int) = some tv ∧ divergence t 1 = some ts ∧
+      applyTrip tv u (c * d + k) = applyTrip ts (fun f => u (f * d + k)) c := by
+  by_cases h1 : d = 1
+  · subst h1
+    have hk0 : k = 0 := by omega
+    subst hk0
+    refine ⟨t.cf.map (fun e => (e.cell, e.face, e.sign)), t.cf.map (fun e => (e.cell, e.face, e.sign)),
+      by simp [divergence], by simp [divergence], ?_⟩
+    simp
+  · have hgt : (d : Int) > 1 := by omega
+    have hne : (d : Int) ≠ 1 := by omega
+    refine ⟨t.cf.flatMap (fun e => (List.range d).map (fun k => (e.cell * d + k, e.face * d + k, e.sign))),
+      t.cf.map (fun e => (e.cell, e.face, e.sign)), ?_, by simp [divergence], ?_⟩
+    · simp only [divergence, if_neg hne, if_pos hgt, Int.toNat_natCast]
+    · exact applyTrip_vector t.cf d u c k hk
+
+/-! ### tag arithmetic (utils/tags.py) -/
+
+/-- `add_tags`: keys of the new dictionary win, all other keys keep their old value. -/
+theorem add_tags_lookup (old new : Tags) (hn : (new.map (·.1)).Nodup) (k : String) :
+    (addTags old new).get k = match new.get k with
+      | some v => some v
+      | none => old.get k :=
+  get_addTags old new hn k
+
+/-- `all_tags`: the result is the element-wise union of the three tag arrays. -/
+theorem all_tags_is_union (tg : Tags) (a b c : String) (x y z : List Bool) (n : Nat)
+    (ha : tg.get a = some x) (hb : tg.get b = some y) (hc : tg.get c = some z)
+    (hx : x.length = n) (hy : y.length = n) (hz : z.length = n) :
+    ∃ r : List Bool, allTags tg [a, b, c] = some r ∧ r.length = n ∧
+      ∀ i : Nat, r[i]? = some true ↔ x[i]? = some true ∨ y[i]? = some true ∨ z[i]? = some true := by
+  refine ⟨orArr (orArr x y) z, by simp [allTags, ha, hb, hc], ?_, ?_⟩
+  · rw [orArr_length _ _ (by rw [orArr_length _ _ (by omega)]; omega), orArr_length _ _ (by omega), hx]
+  · intro i
+    rw [orArr_get _ _ (by rw [orArr_length _ _ (by omega)]; omega), orArr_get _ _ (by omega), or_assoc]
+
+/-- `get_all_boundary_faces` (= indices where `all_face_tags` is True): a face is listed iff it is
+    a fracture, tip or domain-boundary face. -/
+theorem all_boundary_faces_is_union (tg : Tags) (fr tp db : List Bool) (n : Nat)
+    (h1 : tg.get "fracture_faces" = some fr) (h2 : tg.get "tip_faces" = some tp)
+    (h3 : tg.get "domain_boundary_faces" = some db)
+    (l1 : fr.length = n) (l2 : tp.length = n) (l3 : db.length = n) :
+    ∃ r : List Bool, allFaceTags tg = some r ∧
+      ∀ f : Nat, f ∈ indicesOf r ↔ fr[f]? = some true ∨ tp[f]? = some true ∨ db[f]? = some true := by
+  obtain ⟨r, hr, hlen, hspec⟩ := all_tags_is_union tg _ _ _ fr tp db n h1 h2 h3 l1 l2 l3
+  refine ⟨r, hr, ?_⟩
+  intro f
+  rw [← hspec f]
+  unfold indicesOf
+  simp only [List.mem_filter, List.mem_range]
+  constructor
+  · rintro ⟨hf, hv⟩
+    rw [List.getElem?_eq_getElem hf]
+    simp [List.getD, List.getElem?_eq_getElem hf] at hv
+    rw [hv]
+  · intro hv
+    have hf : f < r.length := by
+      rcases Nat.lt_or_ge f r.length with h | h
+      · exact h
+      · rw [List.getElem?_eq_none h] at hv; cases hv
+    exact ⟨hf, by simp [List.getD, hv]⟩
+
+/-- node tags derived from face tags (`update_boundary_node_tag`, `add_node_tags_from_face_tags`):
+    a node is tagged iff it belongs to a tagged face. -/
+theorem node_tag_spec (t : Topo) (ft : List Bool) (n : Nat) (hn : n < t.nn) :
+    (nodeTagFromFaces t ft)[n]? = some true ↔
+      ∃ f, f < t.nf ∧ ft[f]? = some true ∧ n ∈ t.fn.getD f [] :=
+  nodeTagFromFaces_get t ft n hn
+
+/-- The tags a grid constructor leaves: domain boundary = faces tagged by
+    `update_boundary_face_tag`, no fracture or tip faces, node tags derived from them. -/
+theorem fresh_tags_spec (t : Topo) :
+    ∃ tg, freshTags t = some tg ∧
+      tg.get "domain_boundary_faces" = some ((List.range t.nf).map (isBoundary t)) ∧
+      tg.get "fracture_faces" = some (List.replicate t.nf false) ∧
+      tg.get "tip_faces" = some (List.replicate t.nf false) ∧
+      tg.get "domain_boundary_nodes" = some (nodeTagFromFaces t ((List.range t.nf).map (isBoundary t))) ∧
+      tg.get "fracture_nodes" = some (nodeTagFromFaces t (List.replicate t.nf false)) ∧
+      tg.get "tip_nodes" = some (nodeTagFromFaces t (List.replicate t.nf false)) := by
+  simp [freshTags, updateBoundaryNodeTag, initiateTags, updateBoundaryFaceTag, addTags,
+    standardFaceTags, standardNodeTags, Tags.get, Tags.set]
+
+/-- On a freshly constructed grid `get_all_boundary_faces` returns exactly the faces tagged by
+    `update_boundary_face_tag`, i.e. (by `boundary_iff_one_cell`) the faces with one adjacent cell. -/
+theorem fresh_all_boundary_faces (t : Topo) :
+    ∃ tg r, freshTags t = some tg ∧ allFaceTags tg = some r ∧ indicesOf r = boundaryFaces t := by
+  obtain ⟨tg, htg, h1, h2, h3, _⟩ := fresh_tags_spec t
+  refine ⟨tg, (List.range t.nf).map (isBoundary t), htg, ?_, ?_⟩
+  · simp only [allFaceTags, allTags, standardFaceTags, h1, h2, h3]
+    rw [orArr_false_left _ _ (by simp), orArr_false_left _ _ (by simp)]
+  · rw [indicesOf_map_range]; rfl
+
+/-- … and a node is a domain-boundary node iff it belongs to a boundary face. -/
+theorem fresh_boundary_node_iff (t : Topo) (n : Nat) (hn : n < t.nn) :
+    ∃ tg nt, freshTags t = some tg ∧ tg.get "domain_boundary_nodes" = some nt ∧
+      (nt[n]? = some true ↔ ∃ f ∈ boundaryFaces t, n ∈ t.fn.getD f []) := by
+  obtain ⟨tg, htg, _, _, _, h4, _⟩ := fresh_tags_spec t
+  refine ⟨tg, _, htg, h4, ?_⟩
+  rw [nodeTagFromFaces_get t _ n hn]
+  unfold boundaryFaces
+  simp only [List.mem_filter, List.mem_range]
+  constructor
+  · rintro ⟨f, hf, hft, hmem⟩
+    rw [List.getElem?_map, List.getElem?_range hf] at hft
+    simp only [Option.map_some, Option.some.injEq] at hft
+    exact ⟨f, ⟨hf, hft⟩, hmem⟩
+  · rintro ⟨f, ⟨hf, hb⟩, hmem⟩
+    refine ⟨f, hf, ?_, hmem⟩
+    rw [List.getElem?_map, List.getElem?_range hf]
+    simp [hb]
+
+/-! ### subgrids and split faces stay well-formed -/
+
+/-- Restricting a well-formed incidence to a set of cells (with the renumbering of cells, faces and
+    nodes performed by `extract_subgrid`) gives a well-formed incidence: subgrids of well-formed
+    grids are well-formed, so every theorem above applies to them. -/
+theorem extract_subgrid_wf (t : Topo) (h : WF t) (cells : List Nat) (hc : cells.Nodup) :
+    WF (extractSubgrid t cells).1 :=
+  wf_extractSubgrid t h cells hc
+
+/-- Every entry of the subgrid incidence is an entry of the parent, under the returned face map and
+    the sorted cell list. -/
+theorem extract_subgrid_entries_from_parent (t : Topo) (cells : List Nat) (e' : Inc)
+    (he : e' ∈ (extractSubgrid t cells).1.cf) :
+    ∃ f c, (extractSubgrid t cells).2.1[e'.face]? = some f ∧ (isort cells)[e'.cell]? = some c ∧
+      (⟨f, c, e'.sign⟩ : Inc) ∈ t.cf := by
+  simp only [extractSubgrid] at he ⊢
+  obtain ⟨x, hx, rfl⟩ := List.mem_map.mp he
+  obtain ⟨i, c, e, hi, hecf, hcell, rfl⟩ := (mem_subEntries _ _ _ x).mp hx
+  have hmem : e.face ∈ uniqueSorted ((subEntries t.cf 0 (isort cells)).map (·.face)) := by
+    rw [mem_uniqueSorted]
+    exact List.mem_map.mpr ⟨_, hx, rfl⟩
+  have hlt := List.idxOf_lt_length_iff.mpr hmem
+  refine ⟨e.face, c, ?_, by simpa using hi, ?_⟩
+  · simp only
+    rw [List.getElem?_eq_getElem hlt, List.getElem_idxOf hlt]
+  · have : (⟨e.face, c, e.sign⟩ : Inc) = e := by cases e; simp_all
+    simp only [this]; exact hecf
+
+/-- Splitting a face along a fracture keeps the incidence well-formed … -/
+theorem split_face_wf (t : Topo) (h : WF t) (f c : Nat) : WF (splitFace t f c) :=
+  wf_splitFace t h f c
+
+/-- … and both copies of a split internal face have exactly one adjacent cell: they are tagged by
+    `update_boundary_face_tag`, and the two cells no longer share that face. -/
+theorem split_faces_become_boundary (t : Topo) (h : WF t) (hd : 0 < t.dim) (f c c₂ : Nat) (s s₂ : Int)
+    (h1 : (⟨f, c, s⟩ : Inc) ∈ t.cf) (h2 : (⟨f, c₂, s₂⟩ : Inc) ∈ t.cf) (hne : c ≠ c₂) :
+    f ∈ boundaryFaces (splitFace t f c) ∧ t.nf ∈ boundaryFaces (splitFace t f c) := by
+  have hw := wf_splitFace t h f c
+  have hfr : f < t.nf := (h.1 _ h1).2.1
+  have hdim : 0 < (splitFace t f c).dim := hd
+  have hmem : ∀ x : Inc, x ∈ (splitFace t f c).cf ↔
+      ∃ e ∈ t.cf, (if e.face = f ∧ e.cell = c then (⟨t.nf, e.cell, e.sign⟩ : Inc) else e) = x := by
+    intro x; simp [splitFace, List.mem_map]
+  constructor
+  · rw [boundary_iff_one_cell _ hw hdim f (show f < t.nf + 1 by omega)]
+    have hne' : ¬ c₂ = c := fun e => hne e.symm
+    refine ⟨c₂, ⟨s₂, (hmem _).mpr ⟨_, h2, by simp [hne']⟩⟩, ?_⟩
+    rintro c' ⟨s', hx⟩
+    obtain ⟨e, he, hex⟩ := (hmem _).mp hx
+    by_cases m : e.face = f ∧ e.cell = c
+    · rw [if_pos m] at hex
+      simp only [Inc.mk.injEq] at hex
+      omega
+    · rw [if_neg m] at hex
+      subst hex
+      have hc' : c' ≠ c := fun e => m ⟨rfl, e⟩
+      by_cases hs : s' = s
+      · exact absurd (by have := h.uniq he h1 rfl (Or.inl hs); simp only [Inc.mk.injEq] at this; exact this.2.1) hc'
+      · have hs2 : s' = s₂ := by
+          have a1 := h.sign he
+          have a2 := h.sign h1
+          have a3 := h.sign h2
+          have : s ≠ s₂ := fun e => hne (by have := h.uniq h1 h2 rfl (Or.inl e); simp only [Inc.mk.injEq] at this; exact this.2.1)
+          simp only at a1 a2 a3
+          omega
+        have := h.uniq he h2 rfl (Or.inl hs2)
+        simp only [Inc.mk.injEq] at this
+        exact this.2.1
+  · rw [boundary_iff_one_cell _ hw hdim t.nf (show t.nf < t.nf + 1 by omega)]
+    refine ⟨c, ⟨s, (hmem _).mpr ⟨_, h1, by simp⟩⟩, ?_⟩
+    rintro c' ⟨s', hx⟩
+    obtain ⟨e, he, hex⟩ := (hmem _).mp hx
+    by_cases m : e.face = f ∧ e.cell = c
+    · rw [if_pos m] at hex
+      simp only [Inc.mk.injEq] at hex
+      omega
+    · rw [if_neg m] at hex
+      have := (h.1 e he).2.1
+      rw [hex] at this
+      simp only at this
+      omega
+
 /-! ### non-vacuity: concrete grids satisfy the hypotheses, and the queries give what porepy gives -/
 
 /-- `pp.CartGrid([2, 1])`: 2 cells, 7 faces, 6 nodes (incidence in csc storage order) -/
@@ -334,6 +534,38 @@ example : divergence exCart 1 = some [(0, 0, -1), (0, 1, 1), (0, 3, -1), (0, 5, 
 example : (divergence exCart 2).map (fun tr => (entry tr 1 3, entry tr 1 2, entry tr 2 2, entry tr 3 13)) = some (1, 0, -1, 1) := by
   decide +kernel
 example : divergence exCart 0 = none ∧ divergence exCart (-2) = none := by decide +kernel
+
+/-- flux u = (1, 2, …, 14) on the 7 faces × 2 components: row c·2+k of div₂ u equals div₁ of component k -/
+example : (divergence exCart 2).map (fun tr => (List.range 4).map (applyTrip tr (fun j => (j : Rat) + 1)))
+    = some [-1 + 3 - 7 + 11, -2 + 4 - 8 + 12, -3 + 5 - 9 + 13, -4 + 6 - 10 + 14] := by decide +kernel
+
+example : (freshTags exCart).map (fun tg => (tg.get "domain_boundary_faces", tg.get "fracture_faces",
+      tg.get "domain_boundary_nodes", (allFaceTags tg).map indicesOf)) =
+    some (some [true, false, true, true, true, true, true], some (List.replicate 7 false),
+      some (List.replicate 6 true), some [0, 2, 3, 4, 5, 6]) := by decide +kernel
+
+/-- 1-d grid with 3 cells: only the end faces and end nodes are boundary -/
+def exLine : Topo :=
+  { dim := 1, nf := 4, nc := 3, nn := 4,
+    cf := [⟨0, 0, -1⟩, ⟨1, 0, 1⟩, ⟨1, 1, -1⟩, ⟨2, 1, 1⟩, ⟨2, 2, -1⟩, ⟨3, 2, 1⟩], fn := [[0], [1], [2], [3]] }
+
+example : WF exLine ∧
+    (freshTags exLine).map (·.get "domain_boundary_nodes") = some (some [true, false, false, true]) := by
+  decide +kernel
+
+example : (addTags [("a", [true]), ("b", [false])] [("b", [true, true]), ("c", [])]).get "b" = some [true, true] ∧
+    allTags [("x", [true, false, false]), ("y", [false, false, true]), ("z", [false, false, false])] ["x", "y", "z"]
+      = some [true, false, true] := by decide +kernel
+
+/-- `extract_subgrid(CartGrid([2,1]), [1])`: faces 1,2,4,6 and nodes 1,2,4,5 survive, renumbered -/
+example : extractSubgrid exCart [1] =
+    ({ dim := 2, nf := 4, nc := 1, nn := 4, cf := [⟨0, 0, -1⟩, ⟨1, 0, 1⟩, ⟨2, 0, -1⟩, ⟨3, 0, 1⟩],
+       fn := [[0, 2], [1, 3], [0, 1], [2, 3]] }, [1, 2, 4, 6], [1, 2, 4, 5]) ∧
+    WF (extractSubgrid exCart [1]).1 ∧ boundaryFaces (extractSubgrid exCart [1]).1 = [0, 1, 2, 3] := by
+  decide +kernel
+
+example : WF (splitFace exCart 1 1) ∧ boundaryFaces (splitFace exCart 1 1) = [0, 1, 2, 3, 4, 5, 6, 7] ∧
+    (0, 1) ∉ connPairs (splitFace exCart 1 1) := by decide +kernel
 
 /-- the well-formedness hypothesis is needed: on a face with three cells (+, −, +), which the
     orientation check of the `Grid` constructor accepts, the dense array forgets cell 0 -/
